@@ -671,7 +671,8 @@ MANIFEST_ENTRY = dict(
          'dimension on default_grid(pts) with the requested sample sizes, and every integrator/constructor is applied to a density of '
          'its own dimension. The nesting table (zero migration, zero-length epochs, equal asymmetric rates, zero/equal selection) is '
          'proved as equality of the wiring terms for all parameter values, using two axioms that are themselves discharged on '
-         'Integration.py (zero-duration integration is the identity; constants go through ensure_1arg_func). Label-swap equivariance, '
+         'Integration.py (zero-duration integration is the identity; constants go through ensure_1arg_func). Every epoch of a *_sel model receives the '
+         'model\'s selection parameter for every population. Label-swap equivariance, '
          'finiteness and non-negativity are bounded numerical checks only.',
     note='numerical layer abstract (its contracts are C01-C06); pow/exp/log uninterpreted with five ground axioms; pulses with proportion 0 '
          'are the identity (C06); E2 executor semantics; symmetric-model equivariance not proved',
